@@ -308,6 +308,20 @@ static void object_pass(int depth,int shard,int nshards){ std::vector<int> cur; 
 
 // ---- the convenience calls: session_interface::store_data/fetch_data and cache_interface::store_data/fetch_data ------
 struct ConvJar : public cppcms::session_interface_cookie_adapter { std::map<std::string,std::string> c; void set_cookie(cppcms::http::cookie const &k){ if(k.value().empty()) c.erase(k.name()); else c[k.name()]=cppcms::util::urldecode(k.value()); } std::string get_session_cookie(std::string const &n){ return c.count(n)?c[n]:std::string(); } std::set<std::string> get_cookie_names(){ std::set<std::string> s; for(std::map<std::string,std::string>::iterator i=c.begin();i!=c.end();++i) s.insert(i->first); return s; } };
+// ---- the process-global locale as a dimension: archives of numbers, json values and user objects written and read while the global C++ locale
+// groups digits (en_US-like: '.' decimal point, ',' every three digits) or uses ',' as the decimal point must load back equal
+struct group_punct : std::numpunct<char> { char do_decimal_point() const { return '.'; } char do_thousands_sep() const { return ','; } std::string do_grouping() const { return "\3"; } };
+struct comma_punct : std::numpunct<char> { char do_decimal_point() const { return ','; } char do_thousands_sep() const { return '.'; } std::string do_grouping() const { return "\3"; } };
+struct JUser : public serializable { int id; json::value j; JUser():id(0){} void serialize(archive &a){ a & id & j; } };
+static void locale_pass(){ std::vector<json::value> js; { json::value v; v=1234567; js.push_back(v); v=1000; js.push_back(v); v=999; js.push_back(v); v=-1234.5; js.push_back(v); v=1e15; js.push_back(v); json::value a; a[0]=1234567; a[1]=2; js.push_back(a); json::value o; o["k"]=123456; o["s"]="1,234"; js.push_back(o); json::value d; d["x"]["y"][1]=98765.25; js.push_back(d); }
+	std::locale locs[2]={std::locale(std::locale::classic(),new group_punct()),std::locale(std::locale::classic(),new comma_punct())}; const char *ln[2]={"global locale groups digits ('.' decimal point)","global locale with ',' as decimal point"};
+	for(int l=0;l<2;l++){ std::locale old=std::locale::global(locs[l]);
+		for(size_t i=0;i<js.size();i++){ vf::eval(); std::string cs=std::string(ln[l])+", json value #"+std::to_string(i); try{ archive a; a<<js[i]; std::string bytes=a.str(); archive b; b.str(bytes); json::value back; b>>back; if(!(back==js[i])) vf::violation("locale:json-roundtrip","a json value saved to an archive loads back as a different value ["+cs+"]","\"case\":"+vf::jstr(cs)+",\"archive_hex\":"+vf::jstr(vf::hex(bytes))); else vf::guard("locale_roundtrips");
+				JUser u; u.id=1234567; u.j=js[i]; std::string blob; cppcms::serialization_traits<JUser>::save(u,blob); JUser w; cppcms::serialization_traits<JUser>::load(blob,w); if(w.id!=u.id||!(w.j==u.j)) vf::violation("locale:user-object-roundtrip","a user object holding a json value does not round-trip through serialization_traits ["+cs+"]","\"case\":"+vf::jstr(cs)+",\"archive_hex\":"+vf::jstr(vf::hex(blob))); else vf::guard("locale_roundtrips");
+			}catch(std::exception const &e){ vf::violation("locale:roundtrip-throws","saving and loading a json value throws "+std::string(e.what())+" ["+cs+"]","\"case\":"+vf::jstr(cs)); } }
+		{ vf::eval(); double dv=1234567.5; int iv=7654321; std::vector<double> vd; vd.push_back(1e6); vd.push_back(-2500.25); archive a; a<<dv<<iv<<vd; archive b; b.str(a.str()); double d2=0; int i2=0; std::vector<double> v2; b>>d2>>i2>>v2; if(d2!=dv||i2!=iv||v2!=vd) vf::violation("locale:number-roundtrip","plain numbers do not round-trip under "+std::string(ln[l]),"\"case\":"+vf::jstr(ln[l])); else vf::guard("locale_roundtrips"); }
+		std::locale::global(old); } }
+
 static void convenience_pass(){ std::vector<User> us; U<User>::get(us); { User big; big.id=-5; big.name=std::string(700,'n'); for(int i=0;i<30;i++) big.tags.push_back(std::string(i,'t')); us.push_back(big); }
 	cppcms::json::value sc; sc["session"]["location"]="client"; sc["session"]["client"]["hmac"]="sha1"; sc["session"]["client"]["hmac_key"]="00112233445566778899aabbccddeeff00112233"; cppcms::session_pool pool(sc); pool.init();
 	cppcms::json::value cc; cc["service"]["api"]="http"; cc["service"]["port"]=0; cc["service"]["disable_global_exit_handling"]=true; cc["cache"]["backend"]="thread_shared"; cc["cache"]["limit"]=100; cc["logging"]["level"]="emergency"; cppcms::service srv(cc); cppcms::cache_interface ci(srv);
@@ -346,8 +360,8 @@ int main(int argc,char **argv){
 	vf::assume("the strict chunk reader ([u32 little-endian length][bytes], length <= bytes remaining) is the format definition; json chunks are parsed with json::value::load");
 	vf::assume("throwing any std::exception on malformed input is admissible");
 	int np=16;
-	vf::parallel(np,np,[&](int sh){ all_types(sh,np); token_pass(depth,sh,np); object_pass(odepth,sh,np); if(sh==0) convenience_pass(); },vf::thorough()?1200:300);
+	vf::parallel(np,np,[&](int sh){ all_types(sh,np); token_pass(depth,sh,np); object_pass(odepth,sh,np); if(sh==0) convenience_pass(); if(sh==1%np) locale_pass(); },vf::thorough()?1200:300);
 	vf::C().extra["token_depth"]=std::to_string(depth);
-	vf::require_guard("roundtrips"); vf::require_guard("session_store_data_roundtrips"); vf::require_guard("cache_store_data_roundtrips"); vf::require_guard("session_damaged_values"); vf::require_guard("session_size_edges_roundtrip"); vf::require_guard("session_size_edges_refused"); vf::require_guard("lenfield_1to3_past_end"); vf::require_guard("truncation_refused"); vf::require_guard("token_archives_loaded"); vf::require_guard("object_sequences"); vf::require_guard("object_str_on_used_archive"); vf::require_guard("object_loads_ok"); vf::require_guard("object_loads_refused");
+	vf::require_guard("roundtrips"); vf::require_guard("locale_roundtrips"); vf::require_guard("session_store_data_roundtrips"); vf::require_guard("cache_store_data_roundtrips"); vf::require_guard("session_damaged_values"); vf::require_guard("session_size_edges_roundtrip"); vf::require_guard("session_size_edges_refused"); vf::require_guard("lenfield_1to3_past_end"); vf::require_guard("truncation_refused"); vf::require_guard("token_archives_loaded"); vf::require_guard("object_sequences"); vf::require_guard("object_str_on_used_archive"); vf::require_guard("object_loads_ok"); vf::require_guard("object_loads_refused");
 	return vf::finish();
 }
